@@ -154,7 +154,29 @@ used_after_finalize = []
 
 
 def reset_tokens():
-    del created[:], finalized[:], used_after_finalize[:]
+    del created[:], finalized[:], used_after_finalize[:], SubjDeep.deep_finalized[:]
+
+
+class SubjDeep(Subj):
+    """A render class two levels below Renderable, with render data of its own and a
+    finalizer hook that chains to its parent's (as documented): one finalization of a data
+    object = each hook once."""
+
+    deep_finalized = []
+
+    def _get_render_data_(self, *, iteration):
+        rd = super()._get_render_data_(iteration=iteration)
+        rd[SubjDeep].update(handle=rd[Subj].token)
+        return rd
+
+    @classmethod
+    def _finalize_render_data_(cls, render_data):
+        cls.deep_finalized.append(render_data[SubjDeep].handle)
+        super()._finalize_render_data_(render_data)
+
+
+class SubjDeepData(DataNamespace, render_cls=SubjDeep):
+    handle: int
 
 
 class SubjChild(Subj):
